@@ -66,6 +66,10 @@ ObjWellFormed(obj) ==
           /\ obj.rels[f].selfok /\ obj.rels[f].relatedok
           /\ obj.rels[f].data \in {"absent", "null", "one", "many"}   \* "bad" otherwise
           /\ obj.rels[f].typesok      \* every member of the linkage is an object made of the target type and an id
+          \* the linkage has the form of the relationship's cardinality: null or one identifier for
+          \* a to-one relationship, a list for a to-many one
+          /\ (obj.rels[f].data \in {"null", "one"} => ToOne(obj.type, f))
+          /\ (obj.rels[f].data = "many" => ~ToOne(obj.type, f))
 
 WellFormed(doc, out) ==
     /\ out.valid /\ out.topobject
